@@ -380,7 +380,7 @@ func mutationSelfTest(self, repo, verif, prop string, obs []kit.Ob, seed int) ma
 		ms = append(ms, genMutants(f, anchors[f], 4)...)
 	}
 	// cap the total, deterministically (rotated by the seed)
-	const maxMutants = 24
+	const maxMutants = 12
 	if len(ms) > maxMutants {
 		step := float64(len(ms)) / float64(maxMutants)
 		var kept []mutant
